@@ -531,8 +531,8 @@ class _G:
             if w < 0.75:
                 return ["astype", x, "str"], "str", "astype"
             if w < 0.9:
-                return ["isin", x, r.sample(["x", "y", 0, 1, "1", 2.0], 2)], "bool", "cmp"
-            return ["cmp", self.pick(["==", "!="]), x, ["lit", self.pick(["x", 1, "1"])]], "bool", "cmp"
+                return ["isin", x, r.sample(["x", "y", "0", "1", "True", "2.0"], 2)], "bool", "cmp"
+            return ["cmp", self.pick(["==", "!="]), x, ["lit", self.pick(["x", "1", "True"])]], "bool", "cmp"
         if k == "boolean":
             x = leaf[0] if leaf is not None else ["col", self.pick(self.by_kind(cols, "boolean"))]
             if w < 0.3:
